@@ -174,7 +174,7 @@ def part_formats(ctx, Violation_cls=Violation):
         rng = random.Random(ctx.seed * 9176 + fmt)
         B = boundary(fmt)
         names = {v: k for k, v in B.items()}
-        vals = list(dict.fromkeys(list(B.values()) + random_bits(fmt, rng, 8 if quick else 60)))
+        vals = list(dict.fromkeys(list(B.values()) + random_bits(fmt, rng, 8 if quick else 40)))
         ops = impl_binops(fmt, torch)
         R, L, V = semirings(fmt, torch)
         n = len(vals)
@@ -187,6 +187,8 @@ def part_formats(ctx, Violation_cls=Violation):
                     rb = tbits(fn(X, Y), fmt, torch)
                     if quick and op in (7, 8):      # the bare torch.mul / torch.sub underneath Real mul / sub: a third of the pairs
                         rb = [r if i % 3 == 0 else None for i, r in enumerate(rb)]
+                    if quick and op == 5:           # ViterbiSemiring.sub returns x
+                        rb = [r if i % 10 == 0 else None for i, r in enumerate(rb)]
                 except Exception as e:
                     ctx.viol.append(Violation_cls("%s raised %r on 1-dim %s tensors" % (vname, e, "float%d" % fmt),
                                                   case=dict(kind="ffbin", fmt=fmt, op=op, variant=vname), corr="corr:ffmt_binop_check"))
@@ -198,7 +200,7 @@ def part_formats(ctx, Violation_cls=Violation):
                     ctx.nontrivial.add(("ff", fmt, op, a, b))
         # ---- 0-dim tensors: a sample of the pairs
         pairs = [(a, b) for a in vals for b in vals]
-        sample = rng.sample(pairs, min(len(pairs), 120 if quick else 600))
+        sample = rng.sample(pairs, min(len(pairs), 80 if quick else 600))
         for op, variants in ops.items():
             for vname, fn in variants:
                 for a, b in sample:
@@ -228,7 +230,9 @@ def part_formats(ctx, Violation_cls=Violation):
         # ---- comparisons (used by relu / maximum / star / the masks)
         for op, fn in {0: torch.lt, 1: torch.le, 2: torch.eq}.items():
             rb = fn(X, Y).tolist()
-            if quick: rb = [r if (i + op) % 3 == 0 else None for i, r in enumerate(rb)]
+            if quick:      # a third of the pairs per comparison, and every pair of special values
+                sp = {B[k] for k in ("+0", "-0", "nan", "nan-payload", "-nan", "snan", "+inf", "-inf", "minsub", "-minsub", "1", "max", "-max")}
+                rb = [r if ((i + op) % 3 == 0 or (xb[i] in sp and yb[i] in sp)) else None for i, r in enumerate(rb)]
             ctx.count("float%d/%s" % (fmt, CMPOPS[op]), sum(1 for r in rb if r is not None))
             for a, b, r in zip(xb, yb, rb):
                 if r is None: continue
